@@ -65,7 +65,7 @@ MCPermSeqsAB == {<<"A">>, <<"B">>, <<"A", "B">>}
 ASSUME PrintT("META " \o ToJson([DefaultLife |-> DefaultLife, PermTO |-> PermTO, ChanTO |-> ChanTO,
                                  MaxLife |-> MaxLife, Strict |-> Strict, Denied |-> Denied, Fam |-> Fam,
                                  ListenFam |-> ListenFam, Clients |-> Clients, Users |-> Users,
-                                 PeerPorts |-> PeerPorts, InboundMTU |-> InboundMTU, Extra |-> [ledger |-> "yes"]]))
+                                 PeerPorts |-> PeerPorts, QuotaDenied |-> QuotaDenied, InboundMTU |-> InboundMTU, Extra |-> [ledger |-> "yes"]]))
 EmitEdge ==
   PrintT("EDGE " \o ToJson([s |-> <<alloc, perm, chan, resv>>, a |-> last', o |-> out', ev |-> EvDiff,
                             t |-> <<alloc', perm', chan', resv'>>]))
